@@ -316,6 +316,50 @@ def make_loc(has_path0: bool, has_path1: bool, has_path2: bool):
     return h
 
 
+def make_disk(eol: str):
+    """
+    The same through real files (DSDLDefinition.text reads them): line terminators LF, CRLF and lone CR - Python's text
+    mode treats all three as line breaks, so does the reported line.
+    """
+    from .. import model
+
+    term = {"lf": "\n", "crlf": "\r\n", "cr": "\r"}[eol]
+
+    def concrete(k: int, fault: int) -> typing.Any:
+        import pydsdl
+
+        stmt = ["@assert false", "uint8 BAD = 1000", "uint8[0] bad", "@frobnicate"][fault]
+        lines = ["# c"] * k + [stmt, "uint8 after", "@sealed"]
+        root = model.scratch_dir("c17d").resolve()
+        (root / "ns").mkdir()
+        with open(root / "ns" / "T.1.0.dsdl", "wb") as f:
+            f.write(term.join(lines).encode() + term.encode())
+        with open(root / "ns" / "P.1.0.dsdl", "wb") as f:
+            f.write(term.join(["# c"] * k + ["@print 7", "@sealed"]).encode())
+        prints = []  # type: typing.List[typing.Any]
+        try:
+            pydsdl.read_files([root / "ns" / "P.1.0.dsdl"], [root / "ns"], [], lambda p, l, t: prints.append((p.name, l, t)))
+        except pydsdl.InvalidDefinitionError as ex:
+            return "valid definition with %s line endings rejected: %s" % (eol, type(ex).__name__)
+        if prints != [("P.1.0.dsdl", k + 1, "7")]:
+            return "print with %s line endings delivered as %r, want line %d" % (eol, prints, k + 1)
+        try:
+            pydsdl.read_files([root / "ns" / "T.1.0.dsdl"], [root / "ns"], [])
+        except pydsdl.InvalidDefinitionError as ex:
+            if ex.line != k + 1 or ex.path is None or ex.path.name != "T.1.0.dsdl":
+                return "fault on line %d of a file with %s line endings reported at %s:%s (%s)" % (k + 1, eol, ex.path and ex.path.name, ex.line, type(ex).__name__)
+            return True
+        return "faulty definition accepted"
+
+    def h(k: int, fault: int) -> typing.Any:
+        a, b = pick(k, 0, 3), pick(fault, 0, 3)
+        if a is None or b is None:
+            return None
+        return textio.native(concrete, a, b)
+
+    return h
+
+
 # ------------------------------------------------------------------------------------------------------------------
 
 
@@ -379,6 +423,10 @@ def conditions(tier: str, seed: int) -> typing.List[Cond]:
                                 witness={"a": 70000, "b": -5} if fault not in ("const-below", "capacity", "capacity-incl",
                                                                                 "capacity-excl") else {"a": -70000, "b": 3},
                                 budget=120.0, need_exhaust=True))
+    for eol in ("lf", "crlf", "cr"):
+        out.append(Cond(PROP, "c17.disk", make_disk, {"eol": eol}, {"k": int, "fault": int}, kind="choice",
+                        assumptions=["real files with %s line terminators: 4 faults / a @print after 0..3 comment lines" % eol],
+                        witness={"k": 2, "fault": 0}, budget=120.0, need_exhaust=True))
     # c17.print
     for loc in locs:
         for crlf, fnl in ([(False, True), (True, False)] if not thorough else
